@@ -224,4 +224,30 @@ record per cell in cell order for BOTH option values), plus the slots and the to
 def holdsOpt (removeEmpties : Bool) (tol : Rat) (t : List Cell) (recs : List RecordE) : Bool :=
   holds tol t (recs.map (·.base)) && recs.all (entriesOk removeEmpties) && recs.all tooltipOk
 
+/-! ### the option `flat` -/
+
+/-- the `<metric>_<stat>` entries of a flat record, in record order, are the flattening (`Plot.flattenSummaries`:
+key `metric ++ "_" ++ stat`) of the nested record's non-empty summaries — nothing lost, nothing added, no key of
+one metric read as a statistic of another -/
+def flatOk (r : RecordE) (flatEntries : List (String × SVal)) : Bool :=
+  flattenSummaries r.base.metrics == flatEntries
+
+/-! ### the option `keep_samples` -/
+
+def entryApprox (tol : Rat) (expected got : MetricEntry) : Bool :=
+  match expected, got with
+  | .mean a, .mean b => approx tol a b
+  | .samples d, .samples d' => d.map (·.1) == d'.map (·.1) && all2 (fun x y => approx tol x.2 y.2) d d'
+  | _, _ => false
+
+/-- the `metric` entry of every summary of the cell's record is what the flag says: with `keep_samples` and at least
+two samples the dict {0: x₀, 1: x₁, …} of THAT cell's metric samples in order, otherwise the mean of the metric; an
+entry exists exactly for the metrics whose inputs are present -/
+def keptOk (tol : Rat) (keepSamples : Bool) (t : List Cell) (c : Cell) (ks : List (String × MetricEntry)) : Bool :=
+  table.all fun e => match expected t c e.2, ks.lookup e.1 with
+    | some mv, some g => entryApprox tol (metricEntry keepSamples mv) g
+    | some _, none => false
+    | none, some _ => false
+    | none, none => true
+
 end Bermuda.Spec.C20
